@@ -4,6 +4,7 @@ package main
 
 import (
 	"fmt"
+	"go/token"
 	"strings"
 
 	"golang.org/x/tools/go/ssa"
@@ -181,6 +182,39 @@ func c07(p *Prog, r *Report) {
 		if nS == 0 {
 			r.Fail(R1b, "InnerTokenRequest.Unmarshal success path", p.Pos(ifn.Pos()), "decoder has no success return")
 		}
+	}
+
+	// a decrypted inner request that its decoder refused is not handed to the
+	// issuer as if it had parsed: on a return of decryptOriginTokenRequest that
+	// is not a failure and lies behind Unmarshal(...) == false, the request
+	// returned is not the (partially filled) object the decoder worked on
+	if dfn2 := anchor(p, r, R1b, "~/"+nmDecrypt); dfn2 != nil {
+		ds := p.NewSym(dfn2)
+		nChecked := 0
+		bad := ""
+		for _, rp := range ds.ff.RetPoints(verdictIndex(dfn2)) {
+			if rp.Outcome == Fails || len(rp.Vals) == 0 {
+				continue
+			}
+			for _, f := range rp.Facts {
+				c, ok := f.V.(*ssa.Call)
+				if !ok || f.Kind != Truth || f.Pol || calleeName(c.Common()) != "(*tokens/type3.InnerTokenRequest).Unmarshal" || len(c.Call.Args) == 0 {
+					continue
+				}
+				nChecked++
+				obj := c.Call.Args[0]
+				v := rp.Vals[0]
+				if ld, ok := v.(*ssa.UnOp); ok && ld.Op == token.MUL {
+					v = ld.X
+				}
+				if v == obj {
+					bad = p.Pos(rp.Ret.Pos())
+				}
+			}
+		}
+		r.Check(bad == "", R1b, "decryptOriginTokenRequest does not hand on an inner request its decoder refused", p.Pos(dfn2.Pos()),
+			fmt.Sprintf("%d non-failure return(s) behind Unmarshal == false return a value other than the decoder's object", nChecked),
+			"the return at "+bad+" lies behind InnerTokenRequest.Unmarshal(...) == false, is not classified as a failure, and returns the very object the decoder filled before refusing: the issuer goes on with fields of a request that does not parse completely")
 	}
 
 	nk := "param:0.nameKey"
